@@ -69,6 +69,78 @@ def gen_all(ctx):
     ctx.gen('PyEval', '\n'.join(out) + '\n')
 
 
+LOGLOGIT_TEMPLATE = [
+    "choice = int(self.choice.get_value())",
+    "if choice not in self.util:\n    error_msg = <msg>\n    raise BiogemeError(error_msg)",
+    "if choice not in self.av:\n    error_msg = <msg>\n    raise BiogemeError(error_msg)",
+    "if self.av[choice].get_value() == 0.0:\n    return -np.inf",
+    "v_chosen = self.util[choice].get_value()",
+    "denom = 0.0",
+    "for i, V in self.util.items():\n    if self.av[i].get_value() != 0.0:\n        denom += np.exp(V.get_value() - v_chosen)",
+    "return -np.log(denom)",
+]
+
+LOGLOGIT_GALLINA = """
+(* from src/biogeme/expressions/logit_expressions.py LogLogit.get_value: the method matched the statement-by-statement
+   template of lib/props/C01.py (LOGLOGIT_TEMPLATE) on this run; this is its transcription.  Dictionaries are parallel lists
+   (keys, values); None = the method raises (BiogemeError for an unknown chosen alternative, KeyError for a utility without
+   availability). *)
+Fixpoint py_logit_loop (v_chosen : R) (ak : list Z) (avs : list R) (uk : list Z) (us : list R) (denom : R) : option R :=
+  match uk, us with
+  | i :: uk', V :: us' =>
+      match assoc_Z i ak avs with
+      | Some a => py_logit_loop v_chosen ak avs uk' us' (if Rnz a then denom + exp (V - v_chosen) else denom)
+      | None => None
+      end
+  | _, _ => Some denom
+  end.
+
+Definition py_LogLogit (choice : Z) (uk : list Z) (us : list R) (ak : list Z) (avs : list R) : option xval :=
+  match assoc_Z choice uk us with
+  | None => None
+  | Some v_chosen =>
+      match assoc_Z choice ak avs with
+      | None => None
+      | Some a_chosen =>
+          if Rnz a_chosen then
+            match py_logit_loop v_chosen ak avs uk us 0 with
+            | Some denom => Some (XR (- ln denom))
+            | None => None
+            end
+          else Some XmInf
+      end
+  end.
+"""
+
+
+def gen_loglogit(ctx):
+    """tie A (template) for LogLogit.get_value: the method must consist of exactly the statements of LOGLOGIT_TEMPLATE (error
+    messages are free text); then its fixed transcription is emitted.  Any other shape breaks the tie."""
+    import ast
+    from common import REPO
+    src = (REPO / 'src/biogeme/expressions/logit_expressions.py').read_text()
+    fn = None
+    for c in ast.parse(src).body:
+        if isinstance(c, ast.ClassDef) and c.name == 'LogLogit':
+            for f in c.body:
+                if isinstance(f, ast.FunctionDef) and f.name == 'get_value':
+                    fn = f
+    if fn is None:
+        raise Untranslatable('LogLogit.get_value not found')
+    body = [st for st in fn.body if not (isinstance(st, ast.Expr) and isinstance(getattr(st, 'value', None), ast.Constant))]
+    got = []
+    for st in body:
+        if isinstance(st, ast.If) and len(st.body) == 2 and isinstance(st.body[0], ast.Assign) and isinstance(st.body[1], ast.Raise):
+            # the message of a refusal is free text
+            st.body[0].value = ast.Name(id='<msg>')
+        got.append(ast.unparse(st))
+    if got != LOGLOGIT_TEMPLATE:
+        diff = [f'statement {i}: {g!r} (expected {e!r})' for i, (g, e) in enumerate(zip(got, LOGLOGIT_TEMPLATE)) if g != e]
+        raise Untranslatable('LogLogit.get_value does not match its template: ' + ('; '.join(diff) or f'{len(got)} statements instead of {len(LOGLOGIT_TEMPLATE)}'))
+    ctx.gen('PyLogit', 'From Coq Require Import Reals List ZArith.\nFrom BV Require Import Model.PyBase Model.Expr Model.EvalX.\nImport ListNotations.\nOpen Scope R_scope.\n'
+            + LOGLOGIT_GALLINA)
+
+
 def chunks(l, n):
     return [l[i:i + n] for i in range(0, len(l), n)]
 
@@ -545,6 +617,10 @@ def run(ctx):
         gen_all(ctx)
     except Untranslatable as e:
         ctx.tie_broken('py2v:PyEval', str(e))
+    try:
+        gen_loglogit(ctx)
+    except Untranslatable as e:
+        ctx.tie_broken('template:PyLogit', str(e))
     ctx.trusted += ['engine semantics modelled (rocq/Model/EvalX.v), not verified',
                     'py2v translator (tie A) for the get_value methods of the pure-Python evaluator (Gen/PyEval.v)',
                     'expression bridge lib/impl/bio_bridge.py / bio_build.py (round trip checked on every case)']
